@@ -1088,7 +1088,35 @@ def e9_untyped_containers(ctx) -> None:
     ctx.count("E9/positive", seen_e2b, 1, "the one untyped iteration (check_crit_header, decided by E2b) is recognised")
 
 
+def e11_dispatch_by_presence(ctx) -> None:
+    """E11  the general / flattened reader is chosen by the PRESENCE of the discriminating member (`"signatures" in value`, `"recipients" in data`):
+    a truthiness test (`value.get("signatures")`) sends a general serialization with an empty list to the flattened reader, which subscripts
+    members that serialization does not have - KeyError instead of the library's refusal."""
+    eng = ctx.eng
+    n = 0
+    for fn in eng.prog.all_functions():
+        if fn.module.short not in ("jws", "jwe", "rfc7797.json", "rfc7515.json", "rfc7516.json") or fn.name == "<module>":
+            continue
+        cfg = cfg_of(fn)
+        for t in cfg.nodes:
+            if t.kind != "test" or t.ast is None:
+                continue
+            for member in ("signatures", "recipients"):
+                mentions = [x for x in ast.walk(t.ast) if isinstance(x, ast.Constant) and x.value == member]
+                if not mentions:
+                    continue
+                n += 1
+                e = t.ast
+                while isinstance(e, ast.UnaryOp) and isinstance(e.op, ast.Not):
+                    e = e.operand
+                ok = isinstance(e, ast.Compare) and len(e.ops) == 1 and isinstance(e.ops[0], (ast.In, ast.NotIn)) and isinstance(e.left, ast.Constant) and e.left.value == member
+                ctx.check(ok, "E11", fn, t.ast, f"{fn.short} :: {norm(t.ast)[:50]}", f"the serialization kind is decided by `{norm(t.ast)[:60]}`, not by the presence of \"{member}\": an empty "
+                          f"\"{member}\" list reaches the reader of the other kind and escapes as KeyError", f"\"{member}\" in <value>", construct=f"dispatch on {member} in {fn.short}")
+    ctx.count("E11", n, 2, "serialization-kind dispatch tests")
+
+
 def run(ctx) -> None:
+    ctx.guard(e11_dispatch_by_presence)
     from .c15 import r15_4 as _r15_4
     ctx.guard_as("E10", _r15_4)  # a header member that is present is type-checked before anything uses it (null included)
     ctx.guard(e6_none_safety)
